@@ -61,6 +61,7 @@ let handle (toks : string list) : string =
            (match chk_C01 c (zs base) tr with
             | Some clause -> "chk " ^ (string_of_clause clause)
             | None ->
+               if quiet_violated c.ooo (zs base) tr then "chk watermark_not_redelivered" ^ (if model <> impl then " (and model differs)" else "") else
                if model <> impl then "diff tumbling_trace model=" ^ model
                else if List.exists (function EvBatch b -> List.length b.b_rows >= 2 | _ -> false) tr then "ok nt" else "ok")
        | _ -> "bad line")
